@@ -167,11 +167,16 @@ fn main() {
     let mut rep = Report::new("C18", "exploration");
     silence_panics();
     rep.rule("(a) totality: for each of the public inherent functions of the 20 float vector/quaternion/matrix/affine types (generated from the rustdoc JSON of the tree) the full product of the shape alphabets (vectors: 20 shapes incl. zero, -0, subnormal, tiny, huge, MAX, +-inf, NaN lanes, mixtures; scalars: 16; matrices/quaternions/affines: 12; EulerRot: 24; indices: valid ones; slices: long enough) under catch_unwind - no panic allowed; one evaluation = one call; (b) *_slice functions on exact-size heap buffers of every length 0..N+4 between canary allocations (panic iff too short, exactly the first N elements read/written, tail untouched), every index 0..N+2 and usize::MAX (panic iff out of range), conversions of the SIMD-backed types on boxed values; all cases count as non-trivial");
+    // under Miri only the pointer-cast / slice / index part (b) is interpreted (the totality product is
+    // 1e8 calls); totality is then an empty table
+    let miri = rep.args.cfg == "miri";
     // (a)
-    let table = TOTALITY;
+    let table: &[(&str, fn(&mut Acc))] = if miri { &[] } else { TOTALITY };
     rep.extra.insert("functions".into(), json!(table.len()));
     rep.extra.insert("uncovered_api".into(), json!(UNCOVERED));
-    let per_fn: Vec<(String, u64, u64)> = {
+    let per_fn: Vec<(String, u64, u64)> = if miri {
+        vec![]
+    } else {
         use rayon::prelude::*;
         table
             .par_iter()
@@ -201,7 +206,9 @@ fn main() {
     rep.spaces.push(json!({"space": "totality/all public inherent functions x shape products", "functions": per_fn.len(), "evaluations": total, "exhaustive": true,
         "largest": per_fn.iter().max_by_key(|x| x.1).map(|x| json!({"fn": x.0, "calls": x.1})),
         "violations": per_fn.iter().map(|x| x.2).sum::<u64>()}));
-    hand_written_generic(&mut rep);
+    if !miri {
+        hand_written_generic(&mut rep);
+    }
     // (b)
     slices!(rep, Vec2, f32, 2, from_slice, write_to_slice, to_array);
     slices!(rep, Vec3, f32, 3, from_slice, write_to_slice, to_array);
